@@ -36,7 +36,7 @@ PROPS = {
     "C01": {"props_file": "Props/C01.v", "families": ["hist"], "design_ref": "DESIGN.md §8 C01",
             "level_text": "Theorem c01_history_refines: for every element type, configuration and EVERY finite history of the 24 list operations (unbounded length, by induction) the raw-slot model of stack.go (whose guards are regenerated from /repo by the translator) never panics, stays well-formed and returns/ends exactly like the ordered-list specification. The model is tied to the code by the hist family (exhaustive short + random long histories, full re-observation after every mutator) evaluated in Coq against model and specification.",
             "technique": "Coq refinement proof (induction over histories) over a partly regenerated model + differential correspondence check"},
-    "C03": {"props_file": "Props/C03.v", "families": ["hist", "transfer", "policy"], "design_ref": "DESIGN.md §8 C03",
+    "C03": {"props_file": "Props/C03.v", "families": ["hist", "transfer", "policy", "sched"], "design_ref": "DESIGN.md §8 C03",
             "level_text": "Theorems c03_*: every state reachable from a constructor with capacity k by any history holds <= k elements and answers Len/Cap/Avail/IsFull with n, k, k-n, n==k; without capacity -1/-1/false; Push keeps the earliest offered values; Insert on a full stack is a no-op. Proved from the refinement theorem plus a capacity invariant of the specification.",
             "technique": "Coq invariant proof over all histories (corollary of the refinement theorem) + differential correspondence check"},
     "C08": {"props_file": "Props/C08.v", "families": ["indexsweep", "awkward", "hist", "sched"], "design_ref": "DESIGN.md §8 C08",
@@ -52,7 +52,7 @@ PROPS = {
             "technique": "Coq-proved static analysis over a regenerated guard IR + model frame theorems + reflection-driven differential check",
             "race": {"mode": "queries", "rounds": [25, 800], "workers": 12},
             "assumptions": ["user closures and foreign String methods are assumed pure", "race-freedom is argued from 'no writes on any query path'; the Go memory model and scheduler are not modelled (partial)"]},
-    "C17": {"props_file": "Props/C17.v", "families": ["zeroreflect", "awkward"], "design_ref": "DESIGN.md §8 C17",
+    "C17": {"props_file": "Props/C17.v", "families": ["zeroreflect", "awkward", "hist"], "design_ref": "DESIGN.md §8 C17",
             "level_text": "c17_zero_results_every_method: over the regenerated IR with result tracking, on a zero or freed receiver NO path of any exported method (124 of 136; exceptions: the initialisers, error-returning Valid/IsEqual, truthful IsZero/IsEmpty, sentinel strings of ID/Kind/Addr) reaches a place where a result could become non-zero, for all arguments. Static theorem c17_zero_inert_every_method over the regenerated guard IR: for every exported method in the source now (except Marshal and Condition.Init) no path on a zero/freed receiver dereferences the nil embedded pointer or the missing configuration record, and none stores into the receiver; nil Auxiliary methods do not dereference. Reset keeps the configuration record and empties the content (nil elements included). Dynamic leg: every method found by reflection x argument variants x {zero, freed, Init()-only Condition, nil Auxiliary}: no panic, zero results, IsZero/IsInit unchanged.",
             "technique": "Coq-proved static analysis over a regenerated guard IR + reflection-driven differential check",
             "assumptions": ["panics other than nil dereference of the embedded pointer / configuration record are covered by the dynamic family only"]},
